@@ -100,6 +100,40 @@ def check():
                 run.update(inputs=[p], threads=1)
             cases.append(dict(id=f"d{len(cases)}", files=files, report="changed", steps=[dict(run=run)]))
             meta.append(("default", p, depth, cfg["name"]))
+    # (e) the same command text several times in one directory: every execution is a fresh process for its own source
+    for cfg in configs[:1] + configs[4:]:
+        for threads in (1, 3):
+            d = "d1/d2"
+            srcs = [(f"{d}/same{i}.txt.txtpp", BODIES[0]) for i in range(3)]
+            files = [dict(path="probe.sh", text=PROBE, subst=True, mode=0o755), dict(path="probe.log", text="")]
+            files += [dict(path="b/" + p, text="\n".join(body) + "\n") for p, body in srcs]
+            shell = "sh {root}/probe.sh P1"
+            run = dict(cfg["run"])
+            if run.get("via") == "cli":
+                run["args"] = ["-q", "-j", str(threads), "-s", shell] + [p[:-6] for p, _ in srcs]
+            else:
+                run.update(inputs=[p for p, _ in srcs], shell=shell, threads=threads)
+            cases.append(dict(id=f"s{len(cases)}", files=files, report="changed", steps=[dict(run=run)]))
+            meta.append(("probe", srcs, ["P1"], cfg["name"] + f", same command in one directory, {threads} thread(s)"))
+            # default shell: each output names its own source
+            files = [dict(path=f"b/{d}/own{i}.txt.txtpp", text="-TXTPP#run printf '%s\\n' \"$TXTPP_FILE\"\n") for i in range(3)]
+            run = dict(cfg["run"])
+            if run.get("via") == "cli":
+                run["args"] = ["-q", "-j", str(threads), d]
+            else:
+                run.update(inputs=[d], threads=threads)
+            cases.append(dict(id=f"o{len(cases)}", files=files, report="changed", steps=[dict(run=run)]))
+            meta.append(("own", d, threads, cfg["name"]))
+    # (f) one source running the same command twice with a state change in between; a command that fails the second time
+    for via in ("lib", "cli"):
+        files = [dict(path="b/st.txt.txtpp", text="// TXTPP#temp t.tmp\n// one\n-TXTPP#run cat t.tmp\n\n// TXTPP#temp t.tmp\n// two\n-TXTPP#run cat t.tmp\n\nend\n")]
+        run = dict(base="b", inputs=["st.txt"], threads=2) if via == "lib" else dict(via="cli", base="b", args=["-q", "st.txt"])
+        cases.append(dict(id=f"t{len(cases)}", files=files, report="changed", steps=[dict(run=run)]))
+        meta.append(("stateful", via, "", ""))
+        files = [dict(path="b/lk.txt.txtpp", text="-TXTPP#run test ! -e lock && touch lock && echo got\n\n-TXTPP#run test ! -e lock && touch lock && echo got\n\nend\n")]
+        run = dict(base="b", inputs=["lk.txt"], threads=2) if via == "lib" else dict(via="cli", base="b", args=["-q", "lk.txt"])
+        cases.append(dict(id=f"l{len(cases)}", files=files, report="changed", steps=[dict(run=run)]))
+        meta.append(("failsecond", via, "", ""))
     # (c) exit codes
     for code in (0, 1, 3, 127, 255):
         files = [dict(path="b/s.txt.txtpp", text=f"a\n-TXTPP#run echo out; exit {code}\nb\n")]
@@ -117,6 +151,8 @@ def check():
     recs = []
     n_probe = 0
     for m, r in zip(meta, res):
+        if r.get("skipped"):
+            continue   # the runner stopped after too many hung / panicked runs (each one already reported)
         st = r["steps"][0]
         tree = st["tree"]
         kind = m[0]
@@ -176,6 +212,21 @@ def check():
                 rep.violation(f"run:file:{cname}:{depth}", f"TXTPP_FILE={lines[1]!r} does not designate the source {ctx}", dict(meta=m, out=out))
             if not re.fullmatch(r"\[(.*/)?(sh|dash|bash)\]", lines[2]):
                 rep.violation(f"run:shell:{cname}:{depth}", f"default shell is not `sh -c`: $0 = {lines[2]!r} {ctx}", dict(meta=m, out=out))
+        elif kind == "own":
+            _, d, threads, cname = m
+            for i in range(3):
+                out = tree.get(f"b/{d}/own{i}.txt", {}).get("text", "")
+                p = f"{d}/own{i}.txt.txtpp"
+                if st["verdict"] != "ok" or not (out.strip() == p or out.strip().endswith("/b/" + p)):
+                    rep.violation(f"run:own:{cname}:{threads}", f"TXTPP_FILE seen by the command of {p} is {out.strip()!r} (verdict {st['verdict']}) [{cname}, {threads} thread(s), three sources "
+                                  f"with the same command in one directory]", dict(meta=m, out=out))
+        elif kind == "stateful":
+            out = tree.get("b/st.txt", {}).get("text")
+            if st["verdict"] != "ok" or out != "one\ntwo\nend\n":
+                rep.violation(f"run:stateful:{m[1]}", f"a command executed twice with a state change in between gave {out!r}: the second execution is not a fresh process", dict(meta=m, out=out))
+        elif kind == "failsecond":
+            if st["verdict"] != "err":
+                rep.violation(f"run:failsecond:{m[1]}", f"a command that exits non-zero the second time it is executed did not fail the build (verdict {st['verdict']})", dict(meta=m))
         elif kind == "exit":
             _, code, via, _ = m
             want = "ok" if code == 0 else "err"
